@@ -32,7 +32,7 @@ def nontrivial(h):
 def run(ctx):
     quick = ctx.quick
     consts = {"Impls": {"plan_mutator", "msg_mutator"}, "Procs": {"identity"}, "Variants": {"FF"},
-              "MaxOpsId": 8 if quick else 11, "MaxOpsIns": 0, "MaxGens": 0, "MaxPost": 1 if quick else 2, "KeepHist": True,
+              "MaxOpsId": 9 if quick else 12, "MaxOpsIns": 0, "MaxGens": 0, "MaxPost": 1 if quick else 2, "KeepHist": True,
               "DumpVariants": {"FF"}}
     ctx.rule = ("cases = every maximal behaviour of PlanMutator.tla with the identity processor (all driver scripts x all "
                 "parent reactions up to MaxOpsId driver operations, both implementations), each replayed on the real function "
@@ -42,7 +42,7 @@ def run(ctx):
     # 1. the design, exhaustively (thorough: a deeper bound without replay first), and the histories
     if not quick:
         from harness.tlc import run_tlc, write_cfg
-        deep = dict(consts, MaxOpsId=14, DumpVariants=set())
+        deep = dict(consts, MaxOpsId=15, DumpVariants=set())
         res = run_tlc("PlanMutator", write_cfg(ctx.out / "C20_check_deep.cfg", deep, invariants=INVS), spec_dir=G.SD, tag="C20", timeout=3000)
         ctx.add_tlc(res, f"PlanMutator identity exhaustive (check only) MaxOpsId={deep['MaxOpsId']}")
         if not res.ok:
@@ -88,7 +88,7 @@ def run(ctx):
     # 3. code -> spec
     rng = random.Random(ctx.seed)
     traces, meta = [], []
-    n = 160 if quick else 3000
+    n = 200 if quick else 4000
     del hists
     with G.quiet_gc():
         for i in range(n):
